@@ -268,6 +268,18 @@ def schemes(chk, P):
                 chk.judge(oks, "PERTURB", "%s:%s:estimate-stored-in-slot-i" % (name, tag), site, "%s" % sx_str(lhs))
             else:
                 chk.judge(_strip(lhs) == ["var", outv], "PERTURB", "%s:%s:estimate-stored-in-the-result" % (name, tag), site, sx_str(lhs))
+        # the order is that of the RESOLVED method: the caller's method argument may be `unspecified`, which stands for this object's default; it must
+        # reach getMethodOrder only through the resolving helper (second argument: the object's defaultMethod), and be used nowhere else
+        mv = ps[1]
+        res = [d for _, _, d in f.events(lambda d: d["k"] == "decl" and isinstance(d.get("init"), list) and d["init"][:1] == ["call"] and str(d["init"][1]).endswith("getMethodOrThrow"))]
+        okres = len(res) == 1 and _strip(res[0]["init"][3][0]) == ["var", mv] and field_of(_strip(res[0]["init"][3][1])) == REP + "::defaultMethod"
+        od = [d for _, _, d in f.events(lambda d: d["k"] == "decl" and d["var"] == ordv)] if ordv else []
+        okord = okres and len(od) == 1 and [_strip(z) for z in od[0]["init"][3]] == [["var", res[0]["var"]]]
+        raw_uses = [e for _, _, e in f.events(lambda q: q["k"] in ("call", "decl", "assign", "ret")) if
+                    sx_find([e.get("x"), e.get("init"), e.get("rhs"), e.get("val")], lambda y: y == ["var", mv]) and
+                    not (e["k"] == "call" and str(e.get("fn", "")).endswith("getMethodOrThrow")) and not (okres and e is res[0])]
+        chk.judge(okres and okord and not raw_uses, "STEP", name + ":order-of-the-resolved-method", f.loc,
+                  "method = getMethodOrThrow(%s, defaultMethod, ..); order = getMethodOrder(method); other uses of the raw argument: %d" % (mv, len(raw_uses)))
         # STEP: h = cleanUpH(hEst, y0[i]); hEst = getAccFac(order) * max(|y0[i]|, YMin)
         chain = expand_locals(f, hd[0]["init"], depth=3)
         ys = sx_find(chain, lambda y: (y[0] == "opc" and y[1] == "[]" and _strip(y[2]) == ["var", y0v]) or (not vector and y == ["var", y0v]))
@@ -315,7 +327,7 @@ def tables(chk, P):
             if labs and isinstance(v, list) and v[:1] == ["lit"]:
                 got[labs[0]] = str(v[1])
     chk.judge(got.get("ForwardDifference") == "1" and got.get("CentralDifference") == "2", "STEP", "getMethodOrder:Forward->1,Central->2", m.loc, str(got))
-    chk.floor("STEP", 10)
+    chk.floor("STEP", 13)
 
 
 def base_values(chk, P):
@@ -399,6 +411,9 @@ MUTATIONS = [
          new="        const Real hEst = getAccFac(order)*std::max(std::abs(y0[0]), YMin);\n        const Real h = cleanUpH(hEst, y0[0]);\n        Real fyplus, fyminus;", expect="STEP:calcGradient:step-from-the-displaced-coordinate"),
     dict(name="forward formula used for the central method", file=_D,
          old="        if (order==1) {\n            gradf[i] = (fyplus-fy0)/h;", new="        if (order==2) {\n            gradf[i] = (fyplus-fy0)/h;", expect="QUOTIENT:calcGradient"),
+    dict(name="seeded (sub-agent): order taken from the caller's raw method argument", file=_D,
+         old="    const int order = Differentiator::getMethodOrder(method);\n\n    ytmp = y0;\n    for (int i=0; i < NParameters; ++i) {",
+         new="    const int order = Differentiator::getMethodOrder(m);\n\n    ytmp = y0;\n    for (int i=0; i < NParameters; ++i) {", expect="STEP:calcJacobian:order-of-the-resolved-method"),
     dict(name="accuracy factors swapped between the orders", file=_D,
          old="        if (order==1) return AccFac1;\n        if (order==2) return AccFac2;", new="        if (order==1) return AccFac2;\n        if (order==2) return AccFac1;", expect="STEP:getAccFac"),
     dict(name="second-order factor is the square root too", file=_D,
